@@ -15,7 +15,7 @@ CHECKS = {
              text='Every clause (value = array operation, first-order error formula, error >= 0, shape, bins kept, operands '
                   'unchanged, copy independent) is decided by z3 for ALL finite values/errors of the listed shapes (NumPy scalar factors and a right '
                   'operand with bins next to a left one without included; mask chains with a model of every intermediate result) on every '
-                  'feasible path of the real code; counterexamples are replayed in float64. Bounded by shape and chain length.',
+                  'feasible path of the real code; counterexamples are replayed in float64. Bounded by shape and chain length. One concrete float-level job: awkward constants, float64 / float32 / integer datasets, values compared bit for bit with the NumPy operation.',
              design='DESIGN.md section 4 C08'),
  'C09': dict(technique='bounded symbolic execution of the real slicing code (symrun + z3): LIA over unbounded symbolic start/stop for the bins index arithmetic; forked concretisation for numpy indexing end to end',
              text='(A) for every integer/None start and stop (unbounded) and 1..5(8) cells per axis z3 decides that the real '
@@ -27,17 +27,17 @@ CHECKS = {
              text='For every extended-real cell (finite, NaN, +-inf), alpha in (0,1) and any ndf, on every path of the real code z3 decides '
                   'verdict <=> all bins compatible, oracles()/p-value decision/test_pvalue() == per-bin formula, plus relational twins '
                   '(symmetry, rescaling, monotonicity) as two executions inside one query. Bounded by shape/number of datasets. One extra job runs '
-                  'concrete extreme significance levels (down to 1e-300) against an accurate reference: floating point is outside the real-number model.',
+                  'concrete extreme significance levels (down to 1e-300) against an accurate reference, another one equal values with tiny / huge errors: floating point is outside the real-number model.',
              design='DESIGN.md section 4 C05'),
  'C06': dict(technique='bounded symbolic execution of the real Bonferroni/Holm-Bonferroni code (symrun + z3 LRA; QF_NRA with law stubs for Student-based jobs); argsort as a solver-chosen sorting permutation',
              text='For every p-value array (reals in [0,1] or NaN, ties included) of the listed shapes and every alpha, on every path and for every '
                   'tie-breaking argsort may choose, z3 decides flags, levels, counts, verdicts, the Bonferroni=>Holm implication, '
-                  'permutation/reshape invariance (C- and Fortran-ordered arrays) and Student-pass => both pass. Bounded by m <= 4 bins.',
+                  'permutation/reshape invariance (C- and Fortran-ordered arrays), Student-pass => both pass, and independence from an earlier application of both corrections at another (symbolic) level in the same process. Bounded by m <= 4 bins.',
              design='DESIGN.md section 4 C06'),
  'C07': dict(technique='bounded symbolic execution of the real chi-square test (symrun + z3 QF_NRA, uninterpreted chi-square law); zero-error mask concretised by solver-driven forking',
              text='For every extended-real cell, every zero-error pattern, alpha in (0,1), both option settings, on every path z3 decides: '
                   'statistic == sum over used bins, ndf == number of used bins, p-value == sf(statistic, ndf), verdict <=> all p > alpha, '
-                  'order independence, undefined statistic never passes. Bounded by <= 4 bins.',
+                  'order independence, undefined statistic never passes. Bounded by <= 4 bins. One concrete float-level job: integer-typed datasets (exact rational reference) and errors whose squares underflow.',
              design='DESIGN.md section 4 C07'),
  'C17': dict(technique='bounded symbolic execution of the real Browser/Index code (symrun + z3) with symbolic-equality keys: dict/set partition metadata values by solver-decided equality; differential against the naive scan',
              text='For item lists of <= 3 (4) items over <= 2 metadata keys (3 keys, 2-3 items, for queries with three keyword criteria) with ARBITRARY hashable values (only equality observable), all '
@@ -138,7 +138,8 @@ CHECKS = {
  'C11': dict(technique='bounded-exhaustive symbolic execution (symrun + z3 enumerating a symbolic cut offset) of the real Scanner/Parser on shipped listings truncated at every byte of the stated ranges',
              text='For EVERY byte offset of the parallel-mode example listing and every byte of every scanner-interpreted line (and of the line after it) of three sequential listings: '
                   'Scanner raises only ScannerException, Parser() only ParserException, never hangs (60 s alarm); at sampled offsets the last complete '
-                  'edition parses to the same results as in the complete listing. Grammar behaviour on blocks the scanner never delivers is outside.',
+                  'edition parses to the same results as in the complete listing; one path rewritten with three states of a listing (every order, modification time free or forced equal) '
+                  'gives after every rewrite the outcome of the same bytes under a fresh path. Grammar behaviour on blocks the scanner never delivers is outside.',
              design='DESIGN.md section 4 C11'),
 }
 
